@@ -458,6 +458,8 @@ class Interp:
             return int(v)
         if isinstance(v, Opaque):
             return v
+        if isinstance(v, tuple) and v and v[0] in ("varof", "levelof"):
+            return v      # a symbolic variable / level number keeps its identity through integer casts
         raise Unrecognised("cast of %r to %s" % (v, e.get("ty")))
 
     def ev_un(self, e, env):
@@ -580,6 +582,20 @@ class Interp:
 
     def ev_loop(self, e, env):
         raise Beyond("loop")
+
+    def ev_assign(self, e, env):
+        lhs = e["l"]
+        while lhs.get("k") in ("use",):
+            lhs = lhs["e"]
+        if lhs.get("k") == "index":
+            c = self.ev(lhs["e"], env)
+            i = self.ev(lhs["i"], env)
+            v = self.ev(e["r"], env)
+            r = self.dom.index_assign(self, c, i, v) if hasattr(self.dom, "index_assign") else None
+            if r is None:
+                raise Unrecognised("assignment to an element of %r" % (c,))
+            return ()
+        raise Unrecognised("assignment to %s" % lhs.get("k"))
 
     def ev_index(self, e, env):
         v = self.ev(e["e"], env)
